@@ -5,6 +5,8 @@ package mc
 import (
 	"encoding/json"
 	"fmt"
+	"io"
+	"log"
 	"os"
 	"path/filepath"
 	"regexp"
@@ -428,6 +430,9 @@ func ScratchDir(tag string) string {
 
 // Main is the entry point of a per-property check binary.
 func Main(prop, level string, run func(*Run)) {
+	if os.Getenv("VERIF_LOG") == "" {
+		log.SetOutput(io.Discard) // bleve logs expected recoveries through the std logger
+	}
 	// enumeration is allocation-heavy and short-lived: trade memory for fewer GC cycles
 	if os.Getenv("GOGC") == "" {
 		debug.SetGCPercent(300)
